@@ -26,7 +26,7 @@ OWNER = {
     "frame.ci": "C06", "frame.cc": "C06", "frame.meta": "C08", "count": "C01", "nfid": "C06", "file.wal_size": "C01",
     "file.wal_seq": "C01", "file.chain_seq": "C01", "file.present": "C01", "handle": "C01", "ticket": "C25",
     "capacity": "C25", "stats.count": "C01", "dir": "C19", "result": None, "timeline": "C15", "by_uri": "C08",
-    "put.seq": "C01", "put.nfid": "C06", "verify": "C01", "payload_end": "C24",
+    "put.seq": "C01", "put.nfid": "C06", "verify": "C01", "payload_end": "C24", "doctor.verify": "C21", "vecset": "C14", "ro.file": "C18",
 }
 
 
@@ -50,13 +50,20 @@ def gen_basic(rng, sid, nops=14, big=False):
     uris = ["mv2://a", "mv2://b", "mv2://c", "mv2://d"]
     is_open = True
     for _ in range(nops):
+        if not is_open and rng.random() < 0.25:
+            d = {"op": "doctor"}
+            for k, pr in (("vacuum", 0.3), ("time", 0.3), ("lex", 0.3), ("vec", 0.3), ("dry_run", 0.15)):
+                if rng.random() < pr:
+                    d[k] = True
+            ops += [d, {"op": "verify"}]
+            continue
         if not is_open:
             ops.append({"op": rng.choice(["open", "open", "open", "open_ro"])})
             is_open = True
             ro = ops[-1]["op"] == "open_ro"
             if ro:
-                for _ in range(rng.randint(0, 2)):
-                    ops.append(rng.choice([{"op": "timeline"}, {"op": "by_uri", "uri": rng.choice(uris)}]))
+                for _ in range(rng.randint(0, 3)):
+                    ops.append(rng.choice([{"op": "timeline"}, {"op": "by_uri", "uri": rng.choice(uris)}, {"op": "vecset"}, {"op": "verify"}]))
                 ops.append({"op": "close"})
                 is_open = False
             continue
@@ -112,13 +119,16 @@ def gen_basic(rng, sid, nops=14, big=False):
             if rng.random() < 0.4:
                 q["limit"] = rng.randint(1, 3)
             ops.append(q)
-        elif c < 0.97:
+        elif c < 0.96:
             ops.append({"op": "by_uri", "uri": rng.choice(uris + ["mv2://zz"])})
+        elif c < 0.98:
+            ops.append({"op": "vecset"})
         else:
             ops.append({"op": "vacuum"})
     if is_open:
         ops.append({"op": rng.choice(["close", "abandon"])})
-    ops += [{"op": "open"}, {"op": "timeline"}, {"op": "close"}, {"op": "verify"}]
+    ops += [{"op": "open_ro"}, {"op": "vecset"}, {"op": "timeline"}, {"op": "close"},
+            {"op": "open"}, {"op": "timeline"}, {"op": "vecset"}, {"op": "close"}, {"op": "verify"}]
     return {"id": sid, "ops": ops}
 
 
@@ -266,6 +276,20 @@ def scenario_of(evs):
     return [e["args"] for e in evs if e.get("ev") != "reset"]
 
 
+def context_owners(evs, li):
+    """A divergence first seen at, or within two calls after, a vacuum / doctor call also belongs to the
+    property about that maintenance call (C42 vacuum, C21 doctor)."""
+    own = set()
+    for e in evs[max(0, li - 3):li]:
+        if e.get("ev") == "vacuum":
+            own.add("C42")
+        elif e.get("ev") == "doctor":
+            own.add("C21")
+            if e.get("args", {}).get("vacuum"):
+                own.add("C42")
+    return own
+
+
 def report(diags, out, prop, engine="core"):
     """Turns diagnosed rejections into divergences owned by `prop`."""
     n_other = 0
@@ -277,7 +301,10 @@ def report(diags, out, prop, engine="core"):
             owner = OWNER.get(name)
             if name == "result":
                 owner = RESULT_OWNER.get(ev.get("ev"), "C01")
-            if owner == prop:
+            owners = {owner} | context_owners(evs, li)
+            if name == "ro.file" or (ev.get("obs", {}).get("ro") and name in ("count", "frame.st", "frame.pay", "frame.uri")):
+                owners.add("C18")
+            if prop in owners:
                 mine.append((li, name, ev))
         if d.get("stuck_at") is not None and not d["mismatches"]:
             ev = evs[d["stuck_at"]] if d["stuck_at"] < len(evs) else {}
@@ -300,7 +327,7 @@ def report(diags, out, prop, engine="core"):
 
 
 RESULT_OWNER = {"put": "C01", "update": "C08", "delete": "C08", "commit": "C01", "open": "C01", "ticket": "C25",
-                "create": "C19", "open_ro": "C18", "vacuum": "C42", "timeline": "C15", "by_uri": "C08"}
+                "create": "C19", "open_ro": "C18", "vacuum": "C42", "timeline": "C15", "by_uri": "C08", "doctor": "C21"}
 
 
 # ---------------------------------------------------------------------------
@@ -561,6 +588,18 @@ def fam_maintenance(rng, quick):
                 {"op": "put", "uri": "mv2://later", "pay": 11, "cls": "bin", "size": 33, "ts": 51}, {"op": "close"},
                 {"op": "open", "full": True}, {"op": "close"}, {"op": "verify"}]
         out.append(ops)
+        # the same history maintained through doctor instead of vacuum (C21/C42/C06/C14)
+        ops2 = []
+        for o in ops:
+            if o["op"] == "vacuum":
+                ops2 += [{"op": "close"}, {"op": "doctor", "vacuum": True, "vec": rng.random() < 0.5, "lex": rng.random() < 0.5},
+                         {"op": "verify"}, {"op": "doctor"}, {"op": "open", "full": True}]
+            else:
+                ops2.append(dict(o))
+        for o in ops2:
+            if o["op"] == "put" and o.get("cls") == "bin" and "emb" not in o:
+                o["emb"] = 1 + (o["pay"] % 5)
+        out.append(fix_handles(ops2))
     return out
 
 
@@ -578,6 +617,9 @@ PROP_NOTE = {
     "C15": "exact timeline() sequence for every issued query",
     "C19": "directory listing after every call",
     "C24": "payload end vs capacity after every commit; CapacityExceeded results",
+    "C18": "a read-only handle leaves bytes, length and mtime of the file unchanged after every call; it shows the last committed frame table (no pending records)",
+    "C21": "doctor results (status, verification), the frame table / payloads / embeddings after doctor, a second run reporting Clean",
+    "C42": "every observation at or right after vacuum (direct or through doctor): ids, status, payload ids, descriptive fields, embeddings, timeline, verify",
     "C25": "ticket sequence / capacity after every call, TicketSequence results",
 }
 
@@ -596,7 +638,7 @@ def run_prop(prop, tier, out):
     if mc["violated"] and prop in ("C01", "C06", "C08", "C25"):
         out.diverge({"engine": "core", "kind": "model_invariant", "invariant": mc["violated"]},
                     "Mv2Core (as built) violates %s in the bounded model" % mc["violated"], {"engine": "core", "mc": mc})
-    mine = sum(1 for d in r["diags"] if any(OWNER.get(n) == prop for _, n in d["mismatches"]))
+    mine = sum(1 for d in r["diags"] if any(OWNER.get(n) == prop or prop in context_owners(d["events"], li) for li, n in d["mismatches"]))
     return {
         "states": max(1, mc["states"]), "transitions": max(1, mc["transitions"]),
         "traces_validated_against_impl": r["accepted"],
